@@ -76,7 +76,11 @@ def main():
                         bad.append(('O17.1 id changed', new_obj, new_cons, cut, k, i, t_new.get(k)))
                 if getattr(o_new, '_SyncObj__selfCodeVersion') != max(allv):
                     bad.append(('O17.1 selfCodeVersion', new_obj, new_cons))
-                for v in range(0, 5):
+                # every order of calls, and with the enabled version already holding the target value (that is the state in which
+                # __loadDumpFile calls it: the dump restores the enabled version first, then asks for the table to be rebuilt)
+                for step, v in enumerate([3, 0, 2, 0, 1, 4, 1, 1, 0]):
+                    if step % 2 == 0:
+                        setattr(o_new, '_SyncObj__enabledCodeVersion', v)
                     o_new._SyncObj__onSetCodeVersion(v)
                     names = getattr(o_new, '_SyncObj__currentVersionFuncNames')
                     for m, vs in new_obj.items():
